@@ -40,7 +40,31 @@ extern "C" int LLVMFuzzerTestOneInput(const uint8_t *data, size_t size) {
 	const bool micro = g.entry == ec::E_MICROLZMA;
 	set_desc("{\"cfg\":" + g.describe() + ",\"input\":" + r.describe() + ",\"enc_schedule\":" + esch.describe() + ",\"dec_schedule\":" + dsch.describe() + "}");
 
-	ec::Encoded E = ec::encode_all(g, in, esch, AL());
+	// a multi-call encoder may be told new LZMA2 lc/lp/pb in the middle of the data (LZMA_SYNC_FLUSH, then lzma_filters_update):
+	// still "an encoder configuration the library accepts", and the whole output must still decode to the whole input
+	const bool mid_update = (g.entry == ec::E_STREAM || g.entry == ec::E_RAW) && !g.use_preset && g.last_id() == LZMA_FILTER_LZMA2 && !g.has_bcj && in.size() >= 2 && c.rare(24);
+	ec::Encoded E;
+	if (mid_update) {
+		lzma_stream s = LZMA_STREAM_INIT; s.allocator = AL();
+		lzma_ret ir = ec::init_encoder(&s, g);
+		if (ir == LZMA_MEM_ERROR) { lzma_end(&s); count("environment_alloc_cap"); return 0; }
+		if (ir != LZMA_OK) violation("C01:encode-failed", "encoder init returned %s", drv::retname(ir));
+		const size_t cut = 1 + c.u32() % (in.size() - 1);
+		drv::Opts o1; o1.final_action = LZMA_SYNC_FLUSH; o1.out_cap = 48u << 20;
+		drv::Result a = drv::run(&s, in.data(), cut, esch, o1);
+		if (a.ret == LZMA_MEM_ERROR) { lzma_end(&s); count("environment_alloc_cap"); return 0; }
+		if (a.ret != LZMA_STREAM_END) violation("C01:encode-failed", "LZMA_SYNC_FLUSH after %zu bytes returned %s", cut, drv::retname(a.ret));
+		uint32_t nlc = c.u(5), nlp = c.u(5 - nlc), npb = c.u(5);
+		lzma_options_lzma lz2 = g.lz; lz2.lc = nlc; lz2.lp = nlp; lz2.pb = npb;
+		lzma_filter f2[LZMA_FILTERS_MAX + 1]; unsigned nf = 0; for (; nf < g.nfilters; ++nf) f2[nf] = g.filters[nf]; f2[nf].id = LZMA_VLI_UNKNOWN; f2[nf].options = NULL; f2[nf - 1].options = &lz2;
+		lzma_ret ur = lzma_filters_update(&s, f2);
+		if (ur != LZMA_OK) violation("C12:update-refused", "lzma_filters_update(lc=%u lp=%u pb=%u) right after a completed LZMA_SYNC_FLUSH returned %s", nlc, nlp, npb, drv::retname(ur));
+		drv::Opts o2; o2.out_cap = 48u << 20;
+		drv::Result b = drv::run(&s, in.data() + cut, in.size() - cut, esch, o2); lzma_end(&s);
+		E.ret = b.ret; E.bytes = a.out; E.bytes.insert(E.bytes.end(), b.out.begin(), b.out.end()); E.total_in = a.total_in + b.total_in; E.capped = a.capped || b.capped;
+		{ std::string &d = g_stats.current; if (!d.empty() && d.back() == '}') { d.pop_back(); char t[120]; snprintf(t, sizeof t, ",\"sync_flush_and_update_at\":%zu,\"new_lclppb\":[%u,%u,%u]}", cut, nlc, nlp, npb); d += t; } }
+		count("lclppb_changed_after_sync_flush");
+	} else E = ec::encode_all(g, in, esch, AL());
 	if (E.ret == LZMA_MEM_ERROR) { count("environment_alloc_cap"); return 0; }
 	if (E.capped) { count("inconclusive_capped"); return 0; }
 	if (micro) {
